@@ -15,6 +15,12 @@ type memLoader struct {
 	files map[string]string
 	log   []string
 	id    string
+	sink  *sharedLog // global order across the loaders of one set
+}
+
+type sharedLog struct {
+	mu  sync.Mutex
+	log []string
 }
 
 func (m *memLoader) Abs(base, name string) string {
@@ -28,6 +34,11 @@ func (m *memLoader) Get(p string) (io.Reader, error) {
 	m.mu.Lock()
 	defer m.mu.Unlock()
 	m.log = append(m.log, m.id+":"+p)
+	if m.sink != nil {
+		m.sink.mu.Lock()
+		m.sink.log = append(m.sink.log, m.id+":"+p)
+		m.sink.mu.Unlock()
+	}
 	s, ok := m.files[p]
 	if !ok {
 		return nil, errors.New("not found")
